@@ -31,7 +31,8 @@ def emit_grammar(g, with_reflect=True, table_spec=False):
     g.emit(Piece(src.find("struct", "LogicalOperand")), name="grammar::LogicalOperand", under_contract=False)
     g.emit(Piece(src.find("struct", "Instruction")), name="grammar::Instruction", under_contract=False)
     g.emit(Piece(src.find("struct", "CoreInstructionTable")), name="grammar::CoreInstructionTable", under_contract=False)
-    g.raw("""pub type GInstRef = &'static Instruction<'static>;
+    from .tables import SPECIAL_SPEC
+    g.raw(("""pub type GInstRef = &'static Instruction<'static>;
 // the table as a function of the opcode (what unit table_core proves about the static table:
 // exactly one row per declared opcode; `get`/`lookup_opcode` return that row)
 pub uninterp spec fn row_of(op: spirv::Op) -> Instruction<'static>;
@@ -39,6 +40,32 @@ pub open spec fn row_operands(op: spirv::Op) -> Seq<LogicalOperand> { row_of(op)
 // contract discharged on the real bodies by unit table_core (uniqueness + totality lemmas)
 #[verifier::external_body]
 pub proof fn row_of_opcode(op: spirv::Op) ensures row_of(op).opcode == op {}
+// well-formedness and special-kind facts of every row: discharged per row by unit table_core (row_shape)
+pub open spec fn is_opt(q: OperandQuantifier) -> bool { q == OperandQuantifier::ZeroOrOne || q == OperandQuantifier::ZeroOrMore }
+pub open spec fn wf_ids(o: Seq<LogicalOperand>, i: int) -> bool
+    decreases o.len() - i,
+{
+    if i >= o.len() || i < 0 { true } else {
+        (o[i].kind == OperandKind::IdResultType ==> (i == 0 && o[i].quantifier == OperandQuantifier::One))
+        && (o[i].kind == OperandKind::IdResult ==> (o[i].quantifier == OperandQuantifier::One
+                && (i == 0 || (i == 1 && o[0].kind == OperandKind::IdResultType))))
+        && wf_ids(o, i + 1)
+    }
+}
+pub open spec fn wf_quant(o: Seq<LogicalOperand>, i: int, seen_opt: bool) -> bool
+    decreases o.len() - i,
+{
+    if i >= o.len() || i < 0 { true } else {
+        (o[i].quantifier == OperandQuantifier::One ==> !seen_opt)
+        && (o[i].quantifier == OperandQuantifier::ZeroOrMore ==> i == o.len() - 1)
+        && wf_quant(o, i + 1, seen_opt || is_opt(o[i].quantifier))
+    }
+}
+%(SPECIAL)s
+#[verifier::external_body]
+pub proof fn row_shape(op: spirv::Op)
+    ensures wf_ids(row_operands(op), 0), wf_quant(row_operands(op), 0, false), special_from(row_operands(op), op, 0),
+{}
 impl CoreInstructionTable {
     #[verifier::external_body]
     pub fn get(opcode: spirv::Op) -> (r: &'static Instruction<'static>)
@@ -50,7 +77,7 @@ impl CoreInstructionTable {
             (r is Some) <==> spirv::declared_Op(opcode as u32),
             r matches Some(e) ==> (*e == row_of(e.opcode) && (e.opcode as u32) == opcode as u32),
     { unimplemented!() }
-}""")
+}""").replace("%(SPECIAL)s", SPECIAL_SPEC))
     if with_reflect:
         sets = reflect_unit.class_sets()
         g.raw("pub mod reflect {\nuse vstd::prelude::*;\nuse crate::spirv;")
